@@ -368,7 +368,7 @@ func checkC01(e *Engine, r *Report) {
 	})
 
 	r.Rule("R7", "OWNERSHIP", "process-lifetime state: reachable repo code never sorts, compacts, reverses or element-assigns a slice it does not own (a parameter, or the result of a dependency call, which may alias a package-level table such as go-ethereum's precompile address lists) — it works on a copy; otherwise results depend on what the process executed before", 1, func() {
-		checkSliceOwnership(e, r, owned)
+		checkSliceOwnership(e, r, owned, ee, reach)
 	})
 
 	r.Rule("R3", "SCHED", "no goroutine start, select, channel operation or lock in repo-owned code reachable from block execution", 1, func() {
@@ -1175,7 +1175,56 @@ func sliceOwner0(e *Engine, v ssa.Value, depth int, seen map[ssa.Value]bool) str
 	return "unknown"
 }
 
-func checkSliceOwnership(e *Engine, r *Report, owned []*ssa.Function) {
+// paramOwner refines "param" ownership through the call graph: a parameter is fresh if every caller passes a fresh slice.
+func paramOwner(e *Engine, ee *EffectEngine, reach map[*ssa.Function]bool, f *ssa.Function, p *ssa.Parameter, depth int) string {
+	if ee == nil || depth > 2 {
+		return "param " + p.Name()
+	}
+	n := ee.g.Nodes[f]
+	idx := paramIndex(p)
+	if n == nil || idx < 0 || len(n.In) == 0 {
+		return "param " + p.Name()
+	}
+	nIn := 0
+	for _, in := range n.In {
+		if reach != nil && !reach[in.Caller.Func] {
+			continue // callers outside block execution (e.g. the fork's own, unused state transition)
+		}
+		nIn++
+		if in.Site == nil {
+			return "param " + p.Name()
+		}
+		cc := in.Site.Common()
+		var arg ssa.Value
+		if cc.IsInvoke() {
+			if idx == 0 {
+				return "param " + p.Name()
+			}
+			if idx-1 >= len(cc.Args) {
+				return "param " + p.Name()
+			}
+			arg = cc.Args[idx-1]
+		} else {
+			if idx >= len(cc.Args) {
+				return "param " + p.Name()
+			}
+			arg = cc.Args[idx]
+		}
+		o := sliceOwner(e, arg, 0)
+		if pp, isP := resolveLocal(arg).(*ssa.Parameter); isP && strings.HasPrefix(o, "param") {
+			o = paramOwner(e, ee, reach, pp.Parent(), pp, depth+1)
+		}
+		if o != "fresh" {
+			return "param " + p.Name() + " (caller " + fnKey(in.Caller.Func) + " passes " + o + ")"
+		}
+	}
+	if nIn == 0 {
+		return "param " + p.Name()
+	}
+	return "fresh"
+}
+
+func checkSliceOwnership(e *Engine, r *Report, owned []*ssa.Function, ee *EffectEngine, reach map[*ssa.Function]bool) {
 	n := 0
 	for _, f := range owned {
 		if IsGenerated(e.File(f.Pos())) || f.Blocks == nil {
@@ -1197,6 +1246,9 @@ func checkSliceOwnership(e *Engine, r *Report, owned []*ssa.Function) {
 				key += " #" + itoa(cnt)
 			}
 			o := sliceOwner(e, arg, 0)
+			if pp, isP := resolveLocal(arg).(*ssa.Parameter); isP && strings.HasPrefix(o, "param") {
+				o = paramOwner(e, ee, reach, f, pp, 0)
+			}
 			ok := o == "fresh" || strings.HasPrefix(o, "repo-call") || strings.HasPrefix(o, "field ")
 			r.Check(ok, key, e.Pos(c.Pos()), "operates on "+o, "a slice that this function does not own ("+o+") is re-ordered/compacted in place: if it aliases a table that lives for the whole process (e.g. go-ethereum's precompile address list via append on spare capacity) every later execution sees the mutated table — results depend on the process history")
 		}
